@@ -64,7 +64,12 @@ def c12_decode(tier):
         m3 = dict(max_array=2, max_map=4, max_text=1, max_depth=3, max_total_entries=4, max_total_items=2)
         nest = dict(max_array=5, max_nested_array=4, max_map=2, max_text=1, max_depth=6, max_total_entries=2,
                     max_total_items=12)
-    return [_dj("C12", "Header", m2, k), _dj("C12", "ClaimsSet", m2, k), _dj("C12", "CoseKey", m3, k),
+    # three entries with values restricted to kinds that let the decoder get past the first entries:
+    # duplicates that are only detected (or missed) after an out-of-order prefix
+    d3 = dict(max_array=1, max_map=3, max_text=1, max_depth=2, max_total_entries=3, max_total_items=1,
+              map_lens=[3], map_value_kinds=["Bytes", "Integer"])
+    return [_dj("C12", "Header", m2, k), _dj("C12", "Header", d3, k, ":three"), _dj("C12", "ClaimsSet", d3, k, ":three"),
+            _dj("C12", "ClaimsSet", m2, k), _dj("C12", "CoseKey", m3, k),
             _dj("C12", "CoseSign1", nest, k, ":nested"), _dj("C12", "CoseSign", nest, k, ":nested"),
             _dj("C12", "CoseEncrypt", nest, k, ":nested"), _dj("C12", "CoseSignature", nest, k, ":nested")]
 
